@@ -10,7 +10,10 @@ JSON path that the serialized State actually has.
 A run-time JSON key addressed with `->` excludes JSON null; `list_by_status` filters
 with the granularity of the filter type; `Cache::remove` deletes the row only when the
 store reports the object absent (otherwise refreshes it); the write-through upsert
-replaces the cached object unconditionally.
+replaces the cached object unconditionally.  (SERDE) every hand-written serializer on a
+type reachable from the cached Issue / Patch JSON is reviewed (with the invariant it needs
+turned into a rule, e.g. no empty reaction sets) or reported; a hand-written Serialize
+writes every field.
 Not decided: equality of query results with direct evaluation."""
 import re
 
